@@ -187,6 +187,13 @@ def grid(ctx):
             must.append((c, (2, b"k", b"v", x, 0, False, None)))
         for d in DELTAS:
             must += [(c, (11, b"k", d, False)), (c, (12, b"k", d, True)), (c, (14, d, None))]
+    # the noreply marker of every command that has one, asked for explicitly (False and True) under both client defaults
+    for c in cfgs:
+        if c["prefix"] in (b"", b"p:") and c["enc"] == 0 and c["serde"] == 0 and c["unicode"] is False:
+            for n in (False, True, None):
+                must += [(c, (9, b"k", n)), (c, (10, False, [b"k", b"j"], n)), (c, (13, b"k", 5, n)), (c, (14, 0, n)), (c, (14, 7, n)), (c, (0, 3, b"k", b"v", 0, n, None)),
+                         (c, (0, 4, b"k", b"v", 0, n, None)), (c, (1, [(b"a", b"1")], 0, n, None)), (c, (11, b"k", 1, bool(n))), (c, (12, b"k", 1, bool(n))),
+                         (c, (2, b"k", b"v", b"1", 0, bool(n), None))]
     # key collections given as one-shot iterators, the empty one included (nothing to fetch or delete: nothing is written)
     for c in cfgs[:4]:
         must += [(c, (7, True, [])), (c, (8, True, [])), (c, (7, True, [b"k", b"j"])), (c, (8, True, [b"k"])), (c, (10, True, [], None)), (c, (10, True, [b"k"], None)),
